@@ -749,3 +749,24 @@ M('C19', 'repair a76309f undone: the parsed fraction of the second is dropped', 
   (RDR, "                date_time_dict['second'],\n                date_time_dict['microsecond']\n            )", "                date_time_dict['second']\n            )"))
 M('C19', 'one reader ignores the fraction the helper returns', 'C19-D4.components',
   (RDR, "            date_time_dict['second'],\n            date_time_dict['microsecond']\n        )\n        out_tup", "            date_time_dict['second']\n        )\n        out_tup"))
+
+# ------------------------------------------------------------------------------------------------ round 10 rules (exceptional and fallback paths)
+M('C08', 'small W-test samples refused with nan', 'C08-D5.result',
+  (POI, '        warnings.warn("Sample size too small for normal approximation.")\n', '        warnings.warn("Sample size too small for normal approximation.")\n        return {\'z_statistic\': numpy.nan, \'probability\': numpy.nan}\n'))
+M('C08', 'floating point conditions of the T-test raised', 'C08-D5.fperror',
+  (POI, '    X1 = numpy.log(target_event_rates1)  # Log of every element of Forecast 1\n', '    numpy.seterr(all="ignore")\n    with numpy.errstate(divide=\'raise\', invalid=\'raise\'):\n        pass\n    X1 = numpy.log(target_event_rates1)  # Log of every element of Forecast 1\n'))
+for _p in ('C12', 'C13', 'C07'):
+    M(_p, 'any error of the loader ends the pass', 'C13-D1.endonly', (FOR, '                self._idx += 1\n            except StopIteration:', '                self._idx += 1\n            except Exception:'))
+M('C18', 'strict json: non-finite statistics refused', 'C18-D4.nonfinite',
+  (REP, "json.dump(data, f, indent=4, separators=(',', ': '), sort_keys=True, default=_json_default)", "json.dump(data, f, indent=4, separators=(',', ': '), sort_keys=True, default=_json_default, allow_nan=False)"))
+E('C18', 'allow_nan spelt out', (REP, "json.dump(data, f, indent=4, separators=(',', ': '), sort_keys=True, default=_json_default)", "json.dump(data, f, indent=4, separators=(',', ': '), sort_keys=True, default=_json_default, allow_nan=True)"))
+for _p in ('C18', 'C20'):
+    M(_p, 'region dictionary without dh accepted', 'C18-D5.dhrequired', (REG, '        if dh is None:\n            raise AttributeError("cannot create region without dh")\n', ''))
+M('C11', 'keywords filtered through the loader signature', 'C11-D6.kwargs',
+  (INI, '    forecast = loader(fname, **kwargs)', '    import inspect\n    accepted = inspect.signature(loader).parameters\n    forecast = loader(fname, **{k: v for k, v in kwargs.items() if k in accepted})'))
+M('C04', 'masking errors relabelled as a missing region', 'C04-D6.refusal',
+  (CAT, '        mask = self.region.get_masked(self.get_longitudes(), self.get_latitudes())\n', '        try:\n            mask = self.region.get_masked(self.get_longitudes(), self.get_latitudes())\n        except AttributeError:\n            raise CSEPCatalogException("Must have region to filter spatially")\n'))
+M('C02', 'non-finite indices reported before the clamp', 'C02-D3.closed',
+  (CALC, '    idx = numpy.asarray(idx)  # assure idx is an array\n', '    idx = numpy.asarray(idx)  # assure idx is an array\n    idx[~numpy.isfinite(idx)] = -1\n'))
+M('C02', 'forecast lookup warns for a magnitude below the first edge', 'C11-D3.raise',
+  (FOR, '            raise ValueError("mags outside the range of forecast magnitudes.")', '            import warnings\n            warnings.warn("mags outside the range of forecast magnitudes.")'))
